@@ -339,6 +339,21 @@ pub fn run(item: &Value) -> Value {
         "classify_json" => crate::api_gen::classify_json(ty, &item["json"]).unwrap_or(json!({"error": "unknown message type"})),
         "validate_json" => crate::api_gen::validate_json(ty, &item["json"]).unwrap_or(json!({"error": "unknown message type"})),
         "full" => crate::api_gen::full(ty, item["text"].as_str().unwrap_or("")).unwrap_or(json!({"error": "unknown message type"})),
+        "tracker" => {
+            // one tag ("20") with occurrences V0, V1, ... at the given positions; mark the listed positions in the given order
+            let ps: Vec<usize> = item["positions"].as_array().map(|a| a.iter().filter_map(|v| v.as_u64().map(|x| x as usize)).collect()).unwrap_or_default();
+            let marks: Vec<usize> = item["marks"].as_array().map(|a| a.iter().filter_map(|v| v.as_u64().map(|x| x as usize)).collect()).unwrap_or_default();
+            let values: Vec<(String, usize)> = ps.iter().enumerate().map(|(k, p)| (format!("V{}", k), *p)).collect();
+            let mut t = swift_mt_message::parser::FieldConsumptionTracker::new();
+            t.mark_consumed("21", ps.first().copied().unwrap_or(0));
+            for p in marks {
+                t.mark_consumed("20", p);
+            }
+            match t.get_next_available("20", &values) {
+                Some((v, p)) => json!({"ok": true, "next": [v, p]}),
+                None => json!({"ok": true, "next": Value::Null}),
+            }
+        }
         "block4_fields" => {
             let text = item["text"].as_str().unwrap_or("");
             match swift_mt_message::parser::parse_block4_fields(text) {
